@@ -7,8 +7,10 @@ import (
 	"io"
 	"os"
 	"os/exec"
+	"strconv"
 	"strings"
 	"sync"
+	"sync/atomic"
 	"syscall"
 	"time"
 )
@@ -126,3 +128,25 @@ func ChildLoop(handler func(line string) string) {
 		}
 	}
 }
+
+var hangsSeen int64
+
+// Watchdog returns how long to wait for an operation that normally takes well under a second before calling it
+// a hang. The base is doubled (WV_TIMEOUT_FACTOR overrides the factor) so that a heavily loaded machine does
+// not produce false hangs; once three hangs have been reported in this run, further waits are cut to 8 s so
+// that a real deadlock does not make the run take hours.
+func Watchdog(base time.Duration) time.Duration {
+	if atomic.LoadInt64(&hangsSeen) >= 3 {
+		return 8 * time.Second
+	}
+	f := 2.0
+	if s := os.Getenv("WV_TIMEOUT_FACTOR"); s != "" {
+		if v, err := strconv.ParseFloat(s, 64); err == nil && v > 0 {
+			f = v
+		}
+	}
+	return time.Duration(float64(base) * f)
+}
+
+// NoteHang records that a watchdog fired.
+func NoteHang() { atomic.AddInt64(&hangsSeen, 1) }
